@@ -51,6 +51,12 @@ HISTORIES = {
                    ("change", "main.oal", [(R(0, 4, 0, 5), "\u4e2d")])],
         "probe": ("main.oal", {"line": 0, "character": 4}),
     },
+    "two-dependent-changes-in-one-notification": {
+        "disk": {"main.oal": "res / on get -> <{}>;\n"},
+        "script": [("open", "main.oal", "let a = num;\nres / on get -> <a>;\n"), ("sync", "main.oal"),
+                   ("change", "main.oal", [(R(0, 0, 0, 0), "let label = str;\n"), (R(2, 17, 2, 18), "label"), (R(1, 8, 1, 11), "int")])],
+        "probe": ("main.oal", {"line": 2, "character": 18}),
+    },
     "module-error-close-and-reopen": {
         "disk": {"main.oal": 'use "m.oal";\nres / on get -> <t>;\n', "m.oal": "let t = {};\n"},
         "script": [("open", "main.oal", 'use "m.oal";\nres / on get -> <t>;\n'), ("open", "m.oal", "let t = {;\n"), ("sync", "main.oal"),
@@ -262,6 +268,18 @@ def check():
         for p in outs:
             if p.kind != "backedge":
                 continue
+            # the changes of one notification are applied in the order they were sent
+            pre = []
+            for e in p.events:
+                if e[0] == "loop":
+                    break
+                if e[0] == "call":
+                    pre.append(e)
+            chain = [e for e in pre if any(t == ("sym", "p") for a in e[2] for t in ms.subterms(a)) and not e[1].startswith(("Locator", "HashMap"))]
+            nxt = [e for e in p.calls() if e[1].endswith("Iterator::next")]
+            okord = bool(chain) and all(e[1].endswith("IntoIterator::into_iter") for e in chain) and len(nxt) == 1 and nxt[0][1].startswith("IntoIter.")
+            structural("Workspace::change: content changes are consumed front to back (plain into_iter, no reordering adaptor)", okord,
+                       "Workspace::change iterates the content changes through %s" % [e[1] for e in chain])
             gm = p.calls("HashMap::get_mut")
             nx = [e for e in p.calls() if e[1].endswith("Iterator::next")]
             if len(gm) != 1 or len(nx) != 1:
